@@ -4,9 +4,9 @@ copies a confirmed seeded change from /tmp/mut/out into /verif/seeded/<prop>-<k>
 import json, os, shutil, sys
 prop, k = sys.argv[1], sys.argv[2]
 caught = sys.argv[3:]
-src = "/tmp/mut/out/%s/%s" % (prop, k)
+src = os.environ.get("MUT", "/tmp/mut") + "/out/%s/%s" % (prop, k)
 dst = "/verif/seeded/%s-%s" % (prop, k)
-conf = json.load(open("/tmp/mut/confirm/%s-%s.json" % (prop, k)))
+conf = json.load(open(os.environ.get("MUT", "/tmp/mut") + "/confirm/%s-%s.json" % (prop, k)))
 assert conf["applies"] and conf["builds"] and conf["suite"].startswith("1468 passed") \
     and conf["demo_with_rc"] != 0 and conf["demo_without_rc"] == 0, conf
 os.makedirs(dst, exist_ok=True)
